@@ -192,6 +192,11 @@ func TestCheck(t *testing.T) {
 	var samples []any
 	outcomes := vlib.Distinct{}
 	for len(frontier) > 0 {
+		// The reference space has 20 states. An implementation that keeps producing new ones (a counter that only
+		// grows) would never reach closure: stop once it has clearly left the reference space or violations are in hand.
+		if states > 200 || run.NViolations() >= 5 {
+			break
+		}
 		hist := frontier[0]
 		frontier = frontier[1:]
 		if len(hist) > maxDepth {
@@ -277,6 +282,12 @@ func TestCheck(t *testing.T) {
 		}
 	}
 	const q = litefs.RWMutexInterval
+	// A lock table that already disagrees with the reader/writer rules can leave a waiter of parts B / B2 blocked for
+	// ever (a lock nobody holds that never becomes free): part A's verdict stands on its own then.
+	skipBlocking := run.NViolations() > 0
+	if skipBlocking {
+		bcases = nil
+	}
 	for _, bc := range bcases {
 		bc := bc
 		var obs string
@@ -451,6 +462,9 @@ func TestCheck(t *testing.T) {
 			}
 		}
 	}
+	if skipBlocking {
+		b2cases = nil
+	}
 	for _, bc := range b2cases {
 		bc := bc
 		var obs string
@@ -572,6 +586,7 @@ func TestCheck(t *testing.T) {
 		"distinct_outcomes":             outcomes.N(),
 		"blocking_cases":                bEvals,
 		"blocking_distinct_outcomes":    bDistinct.N(),
+		"blocking_parts_skipped":        skipBlocking,
 		"samples":                       samples,
 		"rule":                          "Part A: BFS to closure over the implementation's private state key (sharedN, excl holder, 4 guard states); every one of the 20 alphabet operations is executed from every reachable state on a fresh RWMutex and compared with a POSIX one-byte lock model. Part B: every (holder kind, waiter kind, event, event time) combination of the blocking Lock/RLock on a synctest fake clock.",
 	}
